@@ -1,6 +1,7 @@
 """C08 - visibility: ClientVisibility state machine vs the per-entity (cur, prev) specification.
 Layer 0 part; the Layer 1 part (no hidden entity's data in any message) is checked in the sim runs."""
 import random
+import sys
 from common import *
 
 
@@ -129,7 +130,54 @@ def run(tier, seed, replay):
         rep.violation("harness-build", dict(what="sim harness does not build", log=out[-2000:]), False)
         return rep.finish()
     kws = [dict(policy="black"), dict(policy="white"), dict(policy="black", nclients=3, weights=dict(sop=7.0)), dict(policy="white", auth="custom")]
-    o2, d2 = simcheck.sim_collect(rep, "C08", tier, rng, seed, kws, 160, 16000, oracle_props={"C08"}, known_ids=("D22",),
+
+    def storms(rng, tier):
+        """several clients lose / gain different entities in the same tick in which other entities are despawned or
+        un-replicated: what one client loses must not leak into another client's message"""
+        sys.path.insert(0, os.path.join(VERIF, "gen"))
+        import scripts as gen_scripts
+        out = []
+        for i in range(40 if tier == "quick" else 1500):
+            ncl = rng.choice([2, 3])
+            pol = rng.choice(["black", "white"])
+            lines = ["cfg policy=%s auth=none track=%d nclients=%d timeout=10000" % (pol, rng.randrange(2), ncl), "start", "sframe 0 10"]
+            for c in range(ncl):
+                lines.append("connect %d 1200" % c)
+            nent = rng.randrange(3, 7)
+            for e in range(1, nent + 1):
+                lines.append("sop spawn %d 1 0=%d 1=%d" % (e, rng.randrange(50), rng.randrange(50)))
+                if pol == "white":
+                    for c in range(ncl):
+                        if rng.random() < 0.8:
+                            lines.append("sop vis %d %d 1" % (c, e))
+            lines.append("sframe 1 16")
+            for c in range(ncl):
+                lines += ["deliver %d s2c 0 all" % c, "cframe %d" % c, "deliver %d c2s 0 all" % c]
+            alive = set(range(1, nent + 1))
+            for _ in range(rng.randrange(1, 4)):
+                ents = list(alive)
+                rng.shuffle(ents)
+                for c in range(ncl):
+                    for e in ents[:rng.randrange(0, 3)]:
+                        lines.append("sop vis %d %d %d" % (c, e, rng.randrange(2)))
+                    rng.shuffle(ents)
+                for e in ents[:rng.choice([0, 1, 1, 2])]:
+                    lines.append("sop despawn %d" % e)         # D22 class (visibility after a marker removal) is not entered: despawned entities are never touched again
+                    alive.discard(e)
+                for e in list(alive)[:rng.randrange(0, 3)]:
+                    lines.append("sop mutate %d 0=%d" % (e, rng.randrange(50)))
+                if rng.random() < 0.3:
+                    lines.append("sframe 0 5")
+                lines.append("sframe 1 16")
+                if rng.random() < 0.5:
+                    c = rng.randrange(ncl)
+                    lines += ["deliver %d s2c 0 all" % c, "cframe %d" % c]
+            meta = dict(connected=list(range(ncl)), events=False)
+            sf = len(lines)
+            lines += gen_scripts.settle_lines(meta)
+            out.append(("storm-%d" % i, lines, sf))
+        return out
+    o2, d2 = simcheck.sim_collect(rep, "C08", tier, rng, seed, kws, 160, 16000, oracle_props={"C08"}, known_ids=("D22",), custom_scripts=storms,
                                   rule_extra=", both visibility policies with repeated and cancelling set_visibility calls")
     if o2 and not oracle_fail:
         f = o2[0]
